@@ -217,7 +217,10 @@ fn run_parser_history(toks: &[usize], ctx: &mut Ctx) {
         }
         let got = if *is_fg { buf.palette.get_rgb(a.get_foreground()) } else { buf.palette.get_rgb(a.get_background()) };
         let idx = if *is_fg { a.get_foreground() } else { a.get_background() };
-        if Some(got) != *want && !redefined.contains(&idx) {
+        // a 16 colour SGR code names a palette entry: it shows whatever that entry was redefined to. A colour given by value (38;2 / 48;2 /
+        // CSI t / 38;5) is looked up or inserted: it resolves to exactly that value whatever happened to other entries before
+        let names_an_entry = bytes.starts_with(b"\x1b[0;3") || bytes.starts_with(b"\x1b[0;4");
+        if Some(got) != *want && !(names_an_entry && redefined.contains(&idx)) {
             ctx.violation("diff:palette:parser-colour-does-not-resolve", json!({"step": step, "sequence": String::from_utf8_lossy(bytes), "got": got, "want": want}));
         }
         let fg = buf.palette.get_rgb(a.get_foreground());
